@@ -41,4 +41,84 @@ vpv_cell!(#[kani::unwind(6)] c20_array_empty, "C20/value-roundtrip/Array[]", (),
     let ok = matches!(&r, V::Array(a) if a.is_empty());
     std::mem::forget(v); std::mem::forget(r);
     ok });
-vpv_replay_table!(c20_int, c20_float, c20_bool, c20_null, c20_timestamp, c20_duration, c20_str, c20_array2, c20_array_empty);
+
+// ---- Event <-> SerializableEvent, the JSON codec with format auto-detection, and run checkpoints: BOUNDED STAND-INS (native enumeration).
+// These go through serde, HashMap/IndexMap insertion and chrono — outside CBMC's reach (measured) and outside Verus.
+#[cfg(vpv_replay)]
+pub fn c20_values() -> Vec<(&'static str, V)> {
+    let mut m = varpulis_core::value::FxIndexMap::default();
+    m.insert(std::sync::Arc::<str>::from("k\u{e9}"), V::Int(-7));
+    m.insert(std::sync::Arc::<str>::from("inner"), V::array(vec![V::Null, V::Bool(true)]));
+    vec![("int", V::Int(i64::MIN)), ("float", V::Float(1.5)), ("neg-zero", V::Float(-0.0)), ("bool", V::Bool(true)), ("null", V::Null),
+         ("unicode-str", V::Str("caf\u{e9} \u{4e16}\u{754c} \"q\" \\ \n".into())), ("empty-str", V::Str("".into())),
+         ("timestamp", V::Timestamp(-1_500_000_001)), ("duration", V::Duration(u64::MAX)),
+         ("nested-array", V::array(vec![V::Int(1), V::array(vec![V::Float(2.5), V::Str("x".into())]), V::array(vec![])])),
+         ("map", V::map(m))]
+}
+#[cfg(vpv_replay)]
+pub fn c20_nonfinite() -> Vec<(&'static str, V)> { vec![("NaN", V::Float(f64::NAN)), ("+inf", V::Float(f64::INFINITY)), ("-inf", V::Float(f64::NEG_INFINITY))] }
+#[cfg(vpv_replay)]
+pub fn c20_same_event(a: &Event, b: &Event) -> bool {
+    a.event_type == b.event_type && a.timestamp == b.timestamp && a.data.len() == b.data.len()
+        && a.data.iter().all(|(k, v)| match b.data.get(k) { Some(w) => bits_eq(v, w) || (matches!((v, w), (V::Float(x), V::Float(y)) if x.is_nan() && y.is_nan())), None => false })
+}
+#[cfg(vpv_replay)]
+pub fn c20_events(vals: &[(&'static str, V)], stamps: &[(i64, u32)]) -> Vec<(String, Event)> {
+    let mut out = Vec::new();
+    for ty in ["E", "\u{e9}v\u{e9}nement"] { for (secs, nanos) in stamps {
+        let ts = chrono::DateTime::from_timestamp(*secs, *nanos).unwrap();
+        out.push((format!("type={:?} t=({}s,{}ns) no fields", ty, secs, nanos), Event::new(ty).with_timestamp(ts)));
+        for (n1, v1) in vals {
+            out.push((format!("type={:?} t=({}s,{}ns) field a={}", ty, secs, nanos, n1), Event::new(ty).with_timestamp(ts).with_field("a", v1.clone())));
+            for (n2, v2) in vals { out.push((format!("type={:?} t=({}s,{}ns) fields a={} b\u{e9}={}", ty, secs, nanos, n1, n2), Event::new(ty).with_timestamp(ts).with_field("a", v1.clone()).with_field("b\u{e9}", v2.clone()))); }
+        }
+    } }
+    out
+}
+/// whole-millisecond time stamps before and after the epoch
+#[cfg(vpv_replay)] pub const C20_MS_STAMPS: [(i64, u32); 5] = [(0, 0), (0, 1_000_000), (-1, 999_000_000), (-2, 500_000_000), (1_700_000_000, 123_000_000)];
+/// time stamps with sub-millisecond precision
+#[cfg(vpv_replay)] pub const C20_SUBMS_STAMPS: [(i64, u32); 3] = [(0, 500_000), (1_700_000_000, 123_456_789), (-1, 999_999_999)];
+#[cfg(vpv_replay)]
+pub fn c20_enum(events: Vec<(String, Event)>, f: impl Fn(&Event) -> bool) -> bool {
+    let mut ok = true; let mut shown = 0;
+    for (label, e) in events { let good = vpv_enum_try(|| label.clone(), || f(&e)); if !good { ok = false; shown += 1; if shown >= 3 { return false; } } }
+    ok
+}
+#[cfg(vpv_replay)]
+pub fn c20_se_eq(a: &SerializableEvent, b: &SerializableEvent) -> bool { a.event_type == b.event_type && a.timestamp_ms == b.timestamp_ms && a.fields == b.fields }
+#[cfg(vpv_replay)]
+pub fn c20_via_json(e: &Event) -> Option<Event> {
+    let se = SerializableEvent::from(e);
+    let bytes = crate::codec::serialize(&se, crate::codec::CheckpointFormat::Json).ok()?;
+    let back: SerializableEvent = crate::codec::deserialize(&bytes).ok()?;
+    Some(Event::from(back))
+}
+vpv_native!(c20_event_conversion, "C20/Event<->SerializableEvent/restored event equals the original (native enumeration: 2 event types x 5 whole-millisecond time stamps incl. pre-epoch x <= 2 fields over 11 values incl. nested arrays/maps, unicode)", {
+    c20_enum(c20_events(&c20_values(), &C20_MS_STAMPS), |e| c20_same_event(e, &Event::from(SerializableEvent::from(e)))) });
+vpv_native!(c20_event_conversion_nonfinite, "C20/Event<->SerializableEvent/NaN and infinite field values survive the conversion (native enumeration)", {
+    c20_enum(c20_events(&c20_nonfinite(), &C20_MS_STAMPS[..2]), |e| c20_same_event(e, &Event::from(SerializableEvent::from(e)))) });
+vpv_native!(c20_event_submillisecond_timestamp, "C20/Event<->SerializableEvent/time stamps with sub-millisecond precision are restored exactly (native enumeration: 3 time stamps)", {
+    c20_enum(c20_events(&c20_values()[..2], &C20_SUBMS_STAMPS), |e| c20_same_event(e, &Event::from(SerializableEvent::from(e)))) });
+vpv_native!(c20_json_codec, "C20/codec::serialize(Json)+deserialize (auto-detect)/an event written as JSON is read back equal (native enumeration: same events as the conversion cell)", {
+    c20_enum(c20_events(&c20_values(), &C20_MS_STAMPS), |e| match c20_via_json(e) { Some(b) => c20_same_event(e, &b), None => false }) });
+vpv_native!(c20_json_codec_nonfinite, "C20/codec::serialize(Json)+deserialize/NaN and infinite field values can be written and read back (native enumeration)", {
+    c20_enum(c20_events(&c20_nonfinite(), &C20_MS_STAMPS[..2]), |e| match c20_via_json(e) { Some(b) => c20_same_event(e, &b), None => false }) });
+vpv_native!(c20_run_checkpoint_kleene, "C20/RunCheckpoint via the JSON codec/kleene_events None, Some([]) and Some([e..]) are read back as written (native enumeration)", {
+    let ev = SerializableEvent::from(&Event::new("B").with_timestamp(chrono::DateTime::from_timestamp(5, 0).unwrap()).with_field("v", 1i64));
+    let mut ok = true;
+    for (label, k) in [("None", None), ("Some([])", Some(Vec::new())), ("Some([e])", Some(vec![ev.clone()])), ("Some([e,e])", Some(vec![ev.clone(), ev.clone()]))] {
+        let good = vpv_enum_try(|| format!("kleene_events={}", label), || {
+            let rc = RunCheckpoint { current_state: 1, stack: vec![StackEntryCheckpoint { event: ev.clone(), alias: Some(String::from("a")) }], captured: HashMap::new(),
+                event_time_started_at_ms: Some(-5), event_time_deadline_ms: None, partition_key: Some(SerializableValue::Int(3)), invalidated: false,
+                pending_negation_count: 0, kleene_events: k.clone() };
+            let bytes = match crate::codec::serialize(&rc, crate::codec::CheckpointFormat::Json) { Ok(b) => b, Err(_) => return false };
+            let back: RunCheckpoint = match crate::codec::deserialize(&bytes) { Ok(b) => b, Err(_) => return false };
+            (match (&back.kleene_events, &k) { (None, None) => true, (Some(x), Some(y)) => x.len() == y.len() && x.iter().zip(y.iter()).all(|(p, q)| c20_se_eq(p, q)), _ => false }) && back.current_state == 1 && back.stack.len() == 1 && c20_se_eq(&back.stack[0].event, &ev) && back.event_time_started_at_ms == Some(-5)
+                && back.partition_key == Some(SerializableValue::Int(3))
+        });
+        ok = ok && good;
+    }
+    ok
+});
+vpv_replay_table!(c20_int, c20_float, c20_bool, c20_null, c20_timestamp, c20_duration, c20_str, c20_array2, c20_array_empty, c20_event_conversion, c20_event_conversion_nonfinite, c20_event_submillisecond_timestamp, c20_json_codec, c20_json_codec_nonfinite, c20_run_checkpoint_kleene);
